@@ -5,6 +5,7 @@
 #![allow(dead_code)]
 mod checks;
 mod gen;
+mod geom;
 mod ops;
 mod scene;
 mod json;
